@@ -1,6 +1,7 @@
 import DtsVerif.Drv.Merge
 import DtsVerif.Drv.Sections
 import DtsVerif.Drv.Shift
+import DtsVerif.Drv.Calib
 /-! Line-protocol driver: one JSON request per line on stdin, one JSON reply per line on stdout. -/
 open Lean DtsVerif.Drv
 
@@ -12,6 +13,7 @@ def dispatch (op : String) (j : Json) : R Json :=
   | "sections.eval" => opSectionsEval j
   | "shift" => opShift j
   | "suggest" => opSuggest j
+  | "calib" => opCalib j
   | _ => throw "bad-op"
 
 def handle (line : String) : String :=
